@@ -1063,6 +1063,14 @@ impl<T: Send + Clone> Clone for BoundedSyncReceiver<T> {
   fn clone(&self) -> Self {
     let new_tail_val = self.tail.load(Ordering::Acquire);
     let new_consumer_tail = Arc::new(AtomicUsize::new(new_tail_val));
+    // A closed receiver has given up its cursor; its clone does not register one either.
+    if self.closed.load(Ordering::Acquire) {
+      return Self {
+        shared: Arc::clone(&self.shared),
+        tail: new_consumer_tail,
+        closed: AtomicBool::new(true),
+      };
+    }
     let _lock = self.shared.tails_mutex.lock();
     self
       .shared
@@ -1079,6 +1087,14 @@ impl<T: Send + Clone> Clone for BoundedAsyncReceiver<T> {
   fn clone(&self) -> Self {
     let new_tail_val = self.tail.load(Ordering::Acquire);
     let new_consumer_tail = Arc::new(AtomicUsize::new(new_tail_val));
+    // A closed receiver has given up its cursor; its clone does not register one either.
+    if self.closed.load(Ordering::Acquire) {
+      return Self {
+        shared: Arc::clone(&self.shared),
+        tail: new_consumer_tail,
+        closed: AtomicBool::new(true),
+      };
+    }
     let _lock = self.shared.tails_mutex.lock();
     self
       .shared
